@@ -413,6 +413,10 @@ impl Iterator for ItemUseIter<'_> {
                     self.use_tree.push(&path.tree);
                 }
                 syn::UseTree::Name(name) => {
+                    // A bare `use krate;` names a crate or module, not a type of one.
+                    if self.base_name.is_none() {
+                        continue;
+                    }
                     let type_name = name.ident.to_string();
                     let base_crate = self.resolve_crate_name();
                     if accept_crate(base_crate.as_str()) && accept_type(&type_name) {
